@@ -1,12 +1,14 @@
 package props
 
 import (
+	"context"
 	"fmt"
 	"sort"
 	"strings"
 	"testing"
 
 	"github.com/oneconcern/datamon/pkg/core"
+	mdl "github.com/oneconcern/datamon/pkg/model"
 	"verif/harness/lib"
 )
 
@@ -60,6 +62,15 @@ func c08apply(base *c08base, w *World, model map[string]int, op c08op) (err erro
 	switch op.Kind {
 	case "set":
 		err = setLabel(st, op.Repo, op.Label, base.ids[op.Repo][op.B-1])
+		if err == nil {
+			model[op.Repo+"|"+op.Label] = op.B
+		}
+	case "move":
+		// the other way the API is used to (re)assign a label: fetch its descriptor into a Label object, then upload that
+		// object for the new bundle (a label that does not exist yet is simply created)
+		l := core.NewLabel(core.LabelDescriptor(mdl.NewLabelDescriptor(mdl.LabelName(op.Label), mdl.LabelContributor(mdl.Contributor{Name: "v", Email: "v@x.io"}))))
+		_ = l.DownloadDescriptor(context.Background(), core.NewBundle(core.Repo(op.Repo), core.ContextStores(st), core.Logger(nopLogger)), true)
+		err = l.UploadDescriptor(context.Background(), core.NewBundle(core.Repo(op.Repo), core.ContextStores(st), core.BundleID(base.ids[op.Repo][op.B-1]), core.Logger(nopLogger)))
 		if err == nil {
 			model[op.Repo+"|"+op.Label] = op.B
 		}
@@ -123,7 +134,7 @@ func c08observe(rep *lib.Report, base *c08base, w *World, model map[string]int, 
 func TestC08(t *testing.T) {
 	rep := lib.NewReport("C08", "model_checking")
 	defer rep.Finish(t)
-	rep.Rule = "BFS over all histories of set(r,l,b)/delete(r,l), r in {a,ab}, l in {x,x-y,v1.0.0}, b in {B1,B2}, de-duplicated on the label map, to the fixed point (3^6 states); each state rebuilt on a fresh clone of the real stores; after every step: get of every (r,l), ListLabels with prefixes {'',x,v} x page sizes 1..4, and the write journal (exactly one key written, under labels/<r>/<l>/; bundles and other labels untouched); name acceptance: every string of length <=2 over {a,7,-,_,.,/,space,é,#} + hostile names: if the API accepts the name, get must resolve it and listing must return it together with the other labels; label listings (page size 2, with and without prefix) under every single transient fault at each metadata call: an error or exactly the live labels; distinct = distinct label maps / names"
+	rep.Rule = "BFS over all histories of set(r,l,b) with a fresh Label object / move(r,l,B2) with a Label object that fetched the current descriptor first / delete(r,l), r in {a,ab}, l in {x,x-y,v1.0.0}, b in {B1,B2}, de-duplicated on the label map, to the fixed point (3^6 states); each state rebuilt on a fresh clone of the real stores; after every step: get of every (r,l), ListLabels with prefixes {'',x,v} x page sizes 1..4, and the write journal (exactly one key written, under labels/<r>/<l>/; bundles and other labels untouched); name acceptance: every string of length <=2 over {a,7,-,_,.,/,space,é,#} + hostile names: if the API accepts the name, get must resolve it and listing must return it together with the other labels; label listings (page size 2, with and without prefix) under every single transient fault at each metadata call: an error or exactly the live labels; distinct = distinct label maps / names"
 	base := c08mkbase()
 	var alphabet []c08op
 	for _, r := range c08repos {
@@ -131,6 +142,7 @@ func TestC08(t *testing.T) {
 			for b := 1; b <= 2; b++ {
 				alphabet = append(alphabet, c08op{"set", r, l, b})
 			}
+			alphabet = append(alphabet, c08op{"move", r, l, 2})
 			alphabet = append(alphabet, c08op{"delete", r, l, 0})
 		}
 	}
